@@ -282,7 +282,7 @@ Proof. intros. unfold srv. destruct (srv_setth s t v) as (-> & -> & -> & -> & _)
 Lemma srv_setc_eq : forall s c v, srv (setc s c v) = srv s.
 Proof. intros. unfold srv. destruct (srv_setc s c v) as (-> & -> & -> & -> & _). reflexivity. Qed.
 
-Lemma ioL_empty : forall r lx ls lc, ioL (mkTh [] None lx ls lc).
+Lemma ioL_empty : forall lx ls lc, ioL (mkTh [] None lx ls lc).
 Proof. intros. constructor; simpl; auto. intros; discriminate. Qed.
 
 Lemma LInv_step : forall g s tr c s' l, LInv s tr -> step g s c = Some (s', l) -> LInv s' (tr ++ l).
@@ -303,22 +303,22 @@ Proof.
       * injection H as Es El. subst s' l.
         split; [|split; auto].
         -- eapply listener_ok_srv; [|eauto]. rewrite srv_set_dead, srv_setth_eq. reflexivity.
-        -- rewrite getth_set_dead, getth_setth_same. apply ioL_empty. exact true.
+        -- rewrite getth_set_dead, getth_setth_same. apply ioL_empty.
       * assert (Hbad' : forallb (fun i => negb (bad i)) (k :: rest) = true).
         { rewrite <- D. apply forallb_drop_to_frame. auto. }
         destruct (drop_to_frame_suffix (stk (getth s IO))) as [pre Epre]. rewrite D in Epre.
         assert (Huok' : uok None (k :: rest) = true) by (eapply uok_suffix; rewrite <- Epre; eauto).
         assert (Hdlb' : dlb (k :: rest) = true) by (eapply dlb_suffix; rewrite <- Epre; eauto).
         assert (Hfca : fca None (stk (getth s IO)) = fca None (k :: rest)) by (rewrite <- D, fca_drop; auto).
-        specialize (Lraise x eq_refl). rewrite Hfca, D in Lraise.
+        specialize (Lraise x eq_refl). rewrite Hfca in Lraise. rewrite ?D in Lraise.
         assert (Hk : match ca_fd k with Some f => is_lst_fd f = false | None => True end).
         { destruct (ca_fd k) as [f|] eqn:Ek; auto. destruct (is_lst_fd f) eqn:Ef; auto.
           exfalso. simpl in Lraise. rewrite Ek in Lraise. simpl in Lraise. specialize (Lraise Ef).
           destruct k; simpl in Ek; try discriminate; auto. }
         (* what is below a catch-all frame is dispatch level *)
-        assert (Hrest : forall f, ca_fd k = Some f -> fca None rest = None).
-        { intros f Ek. simpl in Hdlb'. replace (dl k || is_ca k) with true in Hdlb'
-            by (destruct k; simpl in Ek; try discriminate; reflexivity).
+        assert (Hrest : ca_fd k <> None -> fca None rest = None).
+        { intros Ek. simpl in Hdlb'. replace (dl k || is_ca k) with true in Hdlb'
+            by (destruct k; simpl in Ek; try congruence; reflexivity).
           apply andb_true_iff in Hdlb'. destruct Hdlb' as [Hd _]. apply fca_dl. auto. }
         pose proof (frame_lsn IO k x s Hk) as FL.
         destruct (frame IO k x s) as [s1 push ls|s1] eqn:F; injection H as Es El; subst s' l.
@@ -331,7 +331,7 @@ Proof.
                  destruct (is_lst (fca None rest)) eqn:El; [|apply Puok; auto].
                  (* a listener frame is next: then k is handle_accept's try, which pushes nothing *)
                  assert (Ek : ca_fd k = None).
-                 { destruct (ca_fd k) eqn:Ek; auto. rewrite (Hrest _ Ek) in El. discriminate. }
+                 { destruct (ca_fd k) eqn:Ek; auto. rewrite Hrest in El by discriminate. discriminate. }
                  simpl in Lraise. rewrite Ek in Lraise. specialize (Lraise El).
                  destruct k; try contradiction. cbn [frame] in F. rewrite Lraise in F.
                  injection F as _ Ep _. subst push. reflexivity.
@@ -346,7 +346,7 @@ Proof.
               ** eapply dlb_suffix with (p := [k]); eauto.
               ** intros y Ey El. injection Ey as Ey. subst y. exfalso.
                  assert (Ek : ca_fd k = None).
-                 { destruct (ca_fd k) eqn:Ek; auto. rewrite (Hrest _ Ek) in El. discriminate. }
+                 { destruct (ca_fd k) eqn:Ek; auto. rewrite Hrest in El by discriminate. discriminate. }
                  simpl in Lraise. rewrite Ek in Lraise. specialize (Lraise El).
                  destruct k; try contradiction. cbn [frame] in F. rewrite Lraise in F. discriminate.
     + destruct (stk (getth s IO)) as [|i rest] eqn:S; [discriminate|].
@@ -398,27 +398,27 @@ Proof.
         destruct (frame (W c) k x s) as [s1 push ls|s1] eqn:F; injection H as Es El; subst s' l.
         -- destruct FW as [Esrv Pw]. split; [|split].
            ++ eapply listener_ok_srv; [|eauto]. rewrite srv_setth_eq. auto.
-           ++ rewrite <- Hio'. auto.
+           ++ rewrite Hio'. exact Hio.
            ++ intro d. destruct (chan_dec d c); [subst; rewrite getth_setth_same; simpl; rewrite forallb_app, Pw, Hr; reflexivity|auto].
         -- split; [|split].
            ++ eapply listener_ok_srv; [|eauto]. rewrite srv_setth_eq. auto.
-           ++ rewrite <- Hio'. auto.
+           ++ rewrite Hio'. exact Hio.
            ++ intro d. destruct (chan_dec d c); [subst; rewrite getth_setth_same; simpl; auto|auto].
     + destruct (stk (getth s (W c))) as [|i rest] eqn:S.
       * destruct (queued (getc s c)); [|discriminate]. injection H as Es El. subst s' l. split; [|split].
         -- eapply listener_ok_srv; [|eauto]. rewrite srv_setth_eq, srv_setc_eq. reflexivity.
-        -- rewrite <- Hio'. auto.
+        -- rewrite Hio'. exact Hio.
         -- intro d. destruct (chan_dec d c); [subst; rewrite getth_setth_same; reflexivity|auto].
       * simpl in Hwc. apply andb_true_iff in Hwc. destruct Hwc as [Hi Hr].
         pose proof (exec_wsafe g (W c) i a s Hi) as EW.
         destruct (exec g (W c) i a s) as [|s1 push ls|s1 x ls] eqn:E; [discriminate| |]; injection H as Es El; subst s' l.
         -- destruct EW as [Esrv Pw]. split; [|split].
            ++ eapply listener_ok_srv; [|eauto]. rewrite srv_setth_eq. auto.
-           ++ rewrite <- Hio'. auto.
+           ++ rewrite Hio'. exact Hio.
            ++ intro d. destruct (chan_dec d c); [subst; rewrite getth_setth_same; simpl; rewrite forallb_app, Pw, Hr; reflexivity|auto].
         -- split; [|split].
            ++ eapply listener_ok_srv; [|eauto]. rewrite srv_setth_eq. auto.
-           ++ rewrite <- Hio'. auto.
+           ++ rewrite Hio'. exact Hio.
            ++ intro d. destruct (chan_dec d c); [subst; rewrite getth_setth_same; simpl; auto|auto].
 Qed.
 
